@@ -9,7 +9,7 @@ Local Open Scope Z_scope.
     and every constraint  a[v1] <= a[v2] + c  holds. *)
 Definition sat (s : csp) (a : list Z) : Prop :=
   length a = length (doms s) /\
-  (forall i d, nth_error (doms s) i = Some d -> getBit d (nth i a 0) = true) /\
+  (forall i d, nth_error (doms s) i = Some d -> dmem d (nth i a 0)) /\
   Forall (fun c => nth (cv1 c) a 0 <= nth (cv2 c) a 0 + cc c) (constrs s).
 
 Definition solvable (s : csp) : Prop := exists a, sat s a.
@@ -17,7 +17,7 @@ Definition solvable (s : csp) : Prop := exists a, sat s a.
 (** Well-formed systems = what [build] produces within the supported limits. *)
 Definition wf (s : csp) : Prop :=
   length (prefs s) = length (doms s) /\
-  Forall (fun d => (d < 2 ^ 64)%N) (doms s) /\
+  Forall small (doms s) /\
   Forall (fun c => (cv1 c < length (doms s))%nat /\ (cv2 c < length (doms s))%nat) (constrs s).
 
 (** Meaning of the building operations on one variable's value set (the "ranges, parity
